@@ -27,6 +27,12 @@ def level_pred(spec):
         return lambda l: (l > spec[1]) & (l < spec[2])
     if kind == "land":
         return lambda l: np.logical_and(l >= spec[1], l <= spec[2])
+    if kind == "in":
+        return lambda l: np.isin(l, list(spec[1]))
+    if kind == "ne":
+        return lambda l: l != spec[1]
+    if kind == "or":
+        return lambda l: (l == spec[1]) | (l == spec[2])
     raise KeyError(kind)
 
 
@@ -38,6 +44,9 @@ def level_accepts(spec, l):
         "eq": lambda: l == spec[1],
         "between": lambda: spec[1] < l < spec[2],
         "land": lambda: spec[1] <= l <= spec[2],
+        "in": lambda: l in tuple(spec[1]),
+        "ne": lambda: l != spec[1],
+        "or": lambda: l in (spec[1], spec[2]),
     }[kind]()
 
 
@@ -53,6 +62,18 @@ def level_specs(L):
     for a in range(1, L + 1):
         for b in range(a, L + 2):
             out.append(("land", a, b))
+    # predicates that reject a level between two accepted ones: the tree is truncated at the highest accepted level, and the rows
+    # of the rejected levels are left out
+    import itertools
+
+    for k in range(1, L + 1):
+        out.append(("ne", k))
+    for r in range(2, L + 1):
+        for sub in itertools.combinations(range(1, L + 1), r):
+            if sub[-1] - sub[0] + 1 != len(sub):
+                out.append(("in", sub))
+                if len(sub) == 2:
+                    out.append(("or", sub[0], sub[1]))
     # keep those accepting at least one level in 1..L
     seen, res = set(), []
     for s in out:
